@@ -444,7 +444,7 @@ class Runner:
             return self.call_fn(t, args, kwargs)
         if isinstance(f, ast.Name) and f.id == "Fraction":
             from fractions import Fraction
-            return Fraction(*args)
+            return Fraction(*args, **kwargs)
         if isinstance(f, ast.Name) and f.id in ("copy", "deepcopy") and len(args) >= 1 and isinstance(args[0], StandIn):
             meth = "__copy__" if f.id == "copy" else "__deepcopy__"
             if hasattr(args[0], meth):
